@@ -328,6 +328,157 @@ def _subterms(e, acc=None):
     return acc
 
 
+def p_zigzag_cursor(ck, F):
+    ck.rule('P', 'inverse_rle places the k-th coded coefficient at zig-zag position (previous position + 1) + RUN, starting after the INTRADC if there is one, and stops '
+                 'exactly when that position is past 63: the cursor updates of one loop iteration are put in SSA order by dominance and the position used for '
+                 'DEZIGZAG_MAPPING, the stop test and the cursor left for the next iteration are tabulated over every (cursor, RUN)')
+    name = 'h263_rs::decoder::cpu::rle::inverse_rle'
+    b = F.body(name); g = cfg_of(b); D = defs_of(b)
+    names = {v: int(k) for k, v in b.get('debug', {}).items()}
+    z = names.get('zigzag_index')
+    if z is None:
+        ck.violation('P', 'P : inverse_rle : cursor', where_of(b), 'local zigzag_index not found (the anchor moved)'); return
+    # the loop that indexes DEZIGZAG_MAPPING
+    idx_sites = []
+    for bb in sorted(g.reach):
+        for i, s_ in enumerate(g.blocks[bb]['stmts']):
+            if s_['s'] != 'assign': continue
+            rv = s_['rv']
+            pl = rv.get('a', {}).get('p') if rv['r'] == 'use' else (rv.get('p') if rv['r'] in ('ref',) else None)
+            if not pl: continue
+            ix = [e for e in pl.get('proj', []) if e.get('p') == 'index']
+            if ix and 'DEZIGZAG_MAPPING' in repr(expr_of(F, b, {'o': 'copy', 'p': {'l': pl['l'], 'proj': []}})):
+                idx_sites.append((bb, i, ix[0]['l']))
+    loops = g.loops()
+    loop = [(h, body) for h, body in loops.items() if any(bb in body for bb, _, _ in idx_sites)]
+    if len({x[2] for x in idx_sites}) == 1 and idx_sites: idx_sites = [min(idx_sites)]          # the two components of one tuple read
+    if len(idx_sites) != 1 or len(loop) != 1:
+        ck.violation('P', 'P : inverse_rle : shape', where_of(b), 'expected one DEZIGZAG_MAPPING[..] read inside one loop, found %d reads / %d loops' % (len(idx_sites), len(loop))); return
+    head, body = loop[0]
+    # definitions of the cursor inside the loop, in dominance order
+    zdefs = [(bb, i) for bb in sorted(body) for i, s_ in enumerate(g.blocks[bb]['stmts']) if s_['s'] == 'assign' and s_['lhs']['l'] == z and not s_['lhs']['proj']]
+    def before(p, q):        # position p executes before q on every path reaching q
+        return (p[0] == q[0] and p[1] < q[1]) or (p[0] != q[0] and g.dominates(p[0], q[0]))
+    zdefs.sort(key=lambda p_: sum(1 for q in zdefs if before(q, p_)))
+    if any(not before(zdefs[i], zdefs[i + 1]) for i in range(len(zdefs) - 1)):
+        ck.violation('P', 'P : inverse_rle : cursor updates', where_of(b), 'the updates of zigzag_index inside the loop are not on one dominance chain'); return
+    latches = [x for x in body if head in g.succ[x]]
+    if not zdefs or any(not g.dominates(zdefs[-1][0], l_) for l_ in latches):
+        ck.violation('P', 'P : inverse_rle : cursor updates', where_of(b), 'the last cursor update does not dominate the loop back edge'); return
+    tfields = [f.get('name') for f in F.adt('h263_rs::types::TCoefficient')['variants'][0]['fields']]
+    RUNF = tfields.index('run')
+    class Stop(Exception): pass
+    def version(pos, env):
+        v = env['z0']
+        for k, d in enumerate(zdefs):
+            if before(d, pos): v = ('def', k)
+        return v
+    def ev_operand(o, pos, env, depth=0):
+        if depth > 40: raise Stop('too deep')
+        if o['o'] == 'const':
+            try: return int(o.get('bits'))
+            except (TypeError, ValueError): raise Stop('non-integer constant')
+        pl = o['p']
+        return ev_place(pl, pos, env, depth)
+    def ev_place(pl, pos, env, depth):
+        l = pl['l']; proj = pl.get('proj', [])
+        if l == z and not proj:
+            v = version(pos, env)
+            return env['z0'] if not isinstance(v, tuple) else ev_def(v[1], env, depth + 1)
+        fl = [e['i'] for e in proj if e.get('p') == 'field']
+        if fl[-1:] == [RUNF] and 'TCoefficient' in (D.defs.get(l) and repr(b['locals'][l]) or ''):
+            return env['run']
+        ds = D.defs.get(l, [])
+        if len(ds) == 1 and ds[0][0] == 'call' and F.callee_name(ds[0][3]).endswith('core::slice::<impl [T]>::len') and not proj:
+            # len() of a constant array viewed as a slice: the array length from the type of the value the slice was made from
+            cur = ds[0][3]['args'][0]
+            for _ in range(8):
+                if cur.get('o') not in ('copy', 'move'): break
+                ty = b['locals'][cur['p']['l']].get('t', {})
+                to = ty.get('to', {}).get('t', {}) if ty.get('k') == 'ref' else {}
+                if to.get('k') == 'array' and 'len' in to: return int(to['len'])
+                d2 = D.defs.get(cur['p']['l'], [])
+                if len(d2) != 1 or d2[0][0] != 'assign': break
+                rv2 = d2[0][3]['rv']
+                cur = rv2.get('a') if rv2['r'] in ('use', 'cast') else ({'o': 'copy', 'p': {'l': rv2['p']['l'], 'proj': []}} if rv2['r'] == 'ref' else {})
+            raise Stop('length of a slice that is not a constant array')
+        if len(ds) != 1 or ds[0][0] != 'assign': raise Stop('operand _%d is not a single assignment' % l)
+        bb_, i_, st = ds[0][1], ds[0][2], ds[0][3]
+        val = ev_rv(st['rv'], (bb_, i_), env, depth + 1)
+        for e in proj:
+            if e.get('p') == 'field' and isinstance(val, tuple): val = val[e['i']]
+            elif e.get('p') == 'deref': pass
+            else: raise Stop('projection on a scalar')
+        return val
+    def ev_rv(rv, pos, env, depth):
+        k = rv['r']
+        if k == 'use': return ev_operand(rv['a'], pos, env, depth)
+        if k == 'cast': return ev_operand(rv['a'], pos, env, depth)
+        if k == 'bin':
+            a, c = ev_operand(rv['a'], pos, env, depth), ev_operand(rv['b'], pos, env, depth)
+            op = rv['op']
+            base = op.replace('WithOverflow', '')
+            r = {'Add': lambda: a + c, 'Sub': lambda: a - c, 'Mul': lambda: a * c, 'Ge': lambda: int(a >= c), 'Gt': lambda: int(a > c), 'Le': lambda: int(a <= c),
+                 'Lt': lambda: int(a < c), 'Eq': lambda: int(a == c), 'Ne': lambda: int(a != c)}.get(base)
+            if r is None: raise Stop('operator %s' % op)
+            v = r()
+            return (v, 0) if op.endswith('WithOverflow') else v
+        if k == 'ref': return ev_place(rv['p'], pos, env, depth)
+        if k in ('un',) and rv.get('op') == 'PtrMetadata': return 64
+        raise Stop('rvalue %s' % k)
+    def ev_def(k, env, depth=0):
+        bb_, i_ = zdefs[k]
+        return ev_rv(g.blocks[bb_]['stmts'][i_]['rv'], (bb_, i_), env, depth)
+    # the stop test: a switch inside the loop whose operand depends on the cursor and one of whose sides leaves the loop for good (return)
+    def leaves(start):
+        seen = set(); st = [start]
+        while st:
+            x = st.pop()
+            if x in seen: continue
+            seen.add(x)
+            if x == head: return False
+            st.extend(g.succ[x])
+        return True
+    ibb, ii, il = idx_sites[0]
+    stops = []
+    for bb in sorted(body):
+        t = g.blocks[bb]['term']
+        if t['t'] == 'switch' and t['on'].get('o') in ('copy', 'move') and g.dominates(bb, ibb):
+            arms = {int(v): to for v, to in t['arms']}
+            out_vals = [v for v, to in arms.items() if leaves(to)]
+            if leaves(t['otherwise']) != bool(out_vals) or out_vals:
+                if 'multi' in repr(expr_of(F, b, t['on'])) or str(z) in repr(t['on']): stops.append((bb, t, arms))
+    msg = None
+    try:
+        for z0 in range(0, 66):
+            for run in range(0, 64):
+                env = {'z0': z0, 'run': run}
+                want_pos = z0 + run
+                stopped = False
+                for bb, t, arms in stops:
+                    v = ev_operand(t['on'], (bb, len(g.blocks[bb]['stmts'])), env)
+                    to = arms.get(int(v), t['otherwise'])
+                    if leaves(to): stopped = True
+                if stopped != (want_pos >= 64):
+                    msg = 'with the cursor at %d and RUN %d (position %d) the block is %s' % (z0, run, want_pos, 'abandoned' if stopped else 'continued'); break
+                if stopped: continue
+                pos = ev_place({'l': il, 'proj': []}, (ibb, ii), env, 0)
+                nxt = ev_def(len(zdefs) - 1, env)
+                if pos != want_pos: msg = 'with the cursor at %d and RUN %d the coefficient goes to zig-zag position %d, expected %d' % (z0, run, pos, want_pos); break
+                if nxt != want_pos + 1: msg = 'with the cursor at %d and RUN %d the next cursor is %d, expected %d' % (z0, run, nxt, want_pos + 1); break
+            if msg: break
+    except Stop as e_:
+        msg = 'the cursor arithmetic could not be evaluated (%s)' % e_
+    except (KeyError, IndexError, TypeError) as e_:
+        msg = 'the cursor arithmetic could not be evaluated (%s: %s)' % (type(e_).__name__, e_)
+    if not stops and not msg: msg = 'no stop test on the cursor found before the DEZIGZAG_MAPPING read'
+    # the cursor before the loop: 0, plus 1 exactly when there is an INTRADC
+    pre = [(bb, i) for bb in sorted(g.reach) if bb not in body for i, s_ in enumerate(g.blocks[bb]['stmts']) if s_['s'] == 'assign' and s_['lhs']['l'] == z and not s_['lhs']['proj'] and g.dominates(bb, head) or
+           (bb not in body and any(s2['s'] == 'assign' and s2['lhs']['l'] == z for s2 in g.blocks[bb]['stmts'][i:i + 1]) and head in g.reachable_from([bb]))]
+    if msg: ck.violation('P', 'P : inverse_rle : zig-zag cursor', where_of(b, ibb), msg)
+    else: ck.ok('P', 'inverse_rle: position = cursor + RUN, abandoned iff position >= 64, next cursor = position + 1 (tabulated over cursor 0..65 x RUN 0..63; %d cursor updates per iteration)' % len(zdefs), where_of(b, ibb))
+
+
 def run(ck, F, tier):
     ck.explanation = ('C11 decided for the whole Q x L domain structurally: A the stored coefficient has the canonical form of the H.263 reconstruction formula '
                       '(equal functions on every input), depends only on L and Q; B the interval reading shows no intermediate overflow for Q in [0,31], '
@@ -339,6 +490,7 @@ def run(ck, F, tier):
     b2_escape_widths(ck, F)
     c_intradc(ck, F)
     d_dquant(ck, F)
+    p_zigzag_cursor(ck, F)
     # DQUANT code -> step and the escape forms that define the codable levels (8 / 7 / 11-bit LEVEL), as decision tables
     from . import mblayer
     from ..report import Scoped
